@@ -25,3 +25,6 @@ import PvModel.Props.C17Enforce
 #print axioms Pv.C17_hidden_onceo_model
 #print axioms Pv.C17_enforce_assembly
 #print axioms Pv.C17_enforce_exactly_once
+#print axioms Pv.C17_labelling_separates
+#print axioms Pv.C17_each_assignment_once
+#print axioms Pv.C17_assignments_bijection
